@@ -250,6 +250,18 @@ func checkWriteSite(c *Ctx, r *Rep, fn *ssa.Function, ci ssa.CallInstruction, si
 				guarded = true
 			}
 		}
+		// the lookup wrapped in a predicate of one expression: func (db) hasX(k) bool { _, ok := db.m[k]; return ok }
+		if call, ok := cond.(*ssa.Call); ok && !truth {
+			if h := call.Call.StaticCallee(); h != nil && h.Blocks != nil && len(h.Blocks) == 1 && c.InModule(h) {
+				if ret, ok := lastInstr(h.Blocks[0]).(*ssa.Return); ok && len(ret.Results) == 1 {
+					if ex, ok := ret.Results[0].(*ssa.Extract); ok && ex.Index == 1 {
+						if lk, ok := ex.Tuple.(*ssa.Lookup); ok && lk.CommaOk {
+							guarded = true
+						}
+					}
+				}
+			}
+		}
 	}
 	r.Check(guarded, "putconfig-only-new|"+fk, c.Pos(ci.Pos()), "the configuration file is written only when the alias did not exist (existing configuration files are never rewritten)", sprintf("%v", guarded))
 	o := origins(nameArg)
